@@ -31,6 +31,10 @@ RULE = ("exhaustive: every non-empty directed graph (self-loops, antiparallel ed
         "refused by the type gate as 'soc'; then A is written / re-read and judged against A's PAYLOAD, then B against "
         "B's. Name dicts in discovery, shuffled or descending id order, on all or on a subset of the nodes; numpy.int64 "
         "ids and numpy.float64 weights; double blanks, tabs, U+00A0 inside values, names starting with a blank / tab. "
+        "DESTINATION of write(): a new path, or a path that already holds a longer file (the new bytes + 40 stale edge "
+        "lines), a file of exactly the same length, a shorter file (one case in four each), or - in half of the history "
+        "cases - the very path the object was saved to before it was edited (fixed cases: the edit shortens the "
+        "output, 0.30000000000000004 -> 0.5); the bytes must equal those of write() to a new path. "
         "After every observation the sets returned by edges() / outgoing_edges() are modified in place and the "
         "observation is repeated (purity / aliasing). Per case: (h) edges()/nodes()/alternatives_name of the instance "
         "under test = what its PAYLOAD says: the model's add_node/add_edge semantics applied to the whole call history "
@@ -399,6 +403,13 @@ def generate(tier, seed):
         if rng.random() < 0.15:
             meta[rng.choice([1, 2, 4, 5])] = rng.choice(["a  b", "a\tb", "a\xa0b", "x \t y", "two  blanks", "t\t\tt"])
         out.append(mk_case(meta, rng.choice([0, len(nodes), rng.randint(0, 99)]), alts, ops, ops2, mode, flags, rnd=1))
+    for j in range(8):                                                # an edit that shortens the file, saved under the same name
+        long_w = [0.30000000000000004, -1.7976931348623157e+308, 1 / 3, 2.2250738585072014e-308][j % 4]
+        opsa = [[1, 1, 2, bits_of_f(long_w)], [1, 2, 1, bits_of_f(-long_w)], [1, 12345678901234567, 1, bits_of_f(long_w)]][: 1 + j % 3]
+        opsb = [[1, o[1], o[2], bits_of_f([0.5, 1.0, 7.0][j % 3])] for o in opsa]
+        if len(opsb) % 2 == 0:
+            opsb.append([0, 1])
+        out.append(mk_case(default_meta(), 0, [(1, "a"), (2, "b")], opsa, opsb, 0, shorten=1))
     for j in range(6):                                                # object lifetime on tiny graphs
         opsa = [[1, 1, 2, bits_of_f(0.5)], [1, 2, 1, bits_of_f(-1e16)], [1, 2, 2, bits_of_f(0.1)]][: 1 + j % 3]
         opsb = [[1, o[1], o[2], bits_of_f(7.25 + j)] for o in opsa] + ([[1, 3, 1, bits_of_f(1 / 3)]] if j % 2 else [])
@@ -647,6 +658,8 @@ def build_instance(payload, hist):
     hist["paths"].append(pa)
     inst.write(pa)
     text_a = _read_raw(pa)
+    if mode == 0 and len(ops2) % 2 == 1:
+        hist["reuse_path"] = pa                        # the edited object is saved again under the same name
     if mode == 1:
         inst = MatchingInstance()
         inst.parse_file(pa)
@@ -799,11 +812,13 @@ def impl(c):
         pl = unpack(c["payload"])
         inst = build_instance(c["payload"], hist)
         sib = build_sibling(c["payload"], hist) if pl[5] == 2 else None
-        res = standard(inst, paths)
+        import zlib
+        how = zlib.crc32(proto.enc(c["payload"]).encode()) % 4
+        res = standard(inst, paths, how, hist.get("reuse_path"))
         res["hyp"] = [m for o in pl[3] + pl[4] if o[0] == 1 for m in check_token(o[3])]
         res["history"] = {k: v for k, v in hist.items() if k != "paths"}
         if sib is not None:
-            res["sib"] = standard(sib, paths)
+            res["sib"] = standard(sib, paths, (how + 2) % 4)
         return res
     finally:
         for p in paths:
@@ -813,15 +828,48 @@ def impl(c):
                 pass
 
 
-def standard(inst, paths):
+STALE = "".join("%d, %d, %s\n" % (70 + k, 71 + k, repr(0.25 + k)) for k in range(40))    # what a bigger old file leaves
+PREFILL = ["no file at the destination", "destination holds a LONGER file", "destination holds a file of EQUAL length",
+           "destination holds a SHORTER file", "destination is the path this object was written to before"]
+
+
+def prefill(inst, path, how, paths):
+    """put an older file at the destination before write(): 1 longer, 2 same number of bytes, 3 shorter"""
+    if how == 0:
+        return
+    ptmp = _scratch()
+    paths.append(ptmp)
+    inst.write(ptmp)                                   # what write() produces at a fresh path
+    new = open(ptmp, "rb").read()
+    if how == 1:
+        old = new + STALE.encode() + b"# trailing junk of a bigger instance saved earlier\n" * 3
+    elif how == 2:
+        old = (STALE.encode() * (len(new) // len(STALE) + 1))[:len(new)]
+    else:
+        old = new[: max(1, len(new) // 3)]
+    with open(path, "wb") as f:
+        f.write(old)
+
+
+def standard(inst, paths, how=0, reuse=None):
     """everything that is done with one instance under test"""
     if True:
         res = {}
         res["before"] = observe(inst)
         poison_views(inst)
         res["before2"] = observe(inst)
-        p1 = _scratch()
-        paths.append(p1)
+        pf = _scratch()
+        paths.append(pf)
+        inst.write(pf)                                 # fresh destination: the reference bytes of THIS implementation
+        res["text_fresh"] = proto.text(_read_raw(pf))
+        if reuse is not None:
+            p1, how = reuse, 4                         # the very path the object was saved to before it was edited
+            res["old_len"] = os.path.getsize(p1)
+        else:
+            p1 = _scratch()
+            paths.append(p1)
+            prefill(inst, p1, how, paths)
+        res["prefill"] = how
         inst.write(p1)
         text1 = _read_raw(p1)
         res["text1"] = proto.text(text1)
@@ -836,6 +884,7 @@ def standard(inst, paths):
             poison_views(inst2)
             p2 = _scratch()
             paths.append(p2)
+            prefill(inst2, p2, (how + 1) % 4, paths)
             r = guarded(inst2.write, p2)
             res["text2"] = proto.text(_read_raw(p2)) if r[0] == 0 else {"err": r[1:]}
             res["inst2"] = model_payload(inst2)
@@ -1018,6 +1067,9 @@ def _judge_one(c, r, mres, mode):
         return "purity / aliasing: after the results of edges() and outgoing_edges() were modified in place, the accessors answer differently"
     if r["before_after_write"] != dict(b, meta=r["before_after_write"]["meta"]):
         return "write() changed the instance"
+    if r["text1"] != r["text_fresh"]:
+        return ("write() to an existing path (%s) leaves other bytes (%d code points) than write() of the same instance "
+                "to a new path (%d)" % (PREFILL[r["prefill"]], len(r["text1"]), len(r["text_fresh"])))
     # (h) the instance is what the PAYLOAD (history of add_node / add_edge calls) says (model: add_edge overwrites)
     m_build = mres[4]
     bw = {}
@@ -1186,6 +1238,9 @@ def stats(c, r, m):
         labels.append("weight repr with e-")
     if any(abs(w) >= 1e16 and w == int(w) for w in ws if abs(w) < 1.8e308):
         labels.append("integer-valued weight >= 1e16")
+    labels.append("write: " + PREFILL[r.get("prefill", 0)])
+    if r.get("prefill") == 4 and r.get("old_len", 0) > len(proto.untext(r["text1"]).encode()):
+        labels.append("write: same object saved again under the same name, new content SHORTER than the old file")
     fl = flags_of(c["payload"])
     if fl & F_SPARSE:
         labels.append("alternatives_name on a subset of the nodes only")
